@@ -232,7 +232,10 @@ class DateTimeDataType(BaseDataType):
         self.format = out_format
 
     def to_er7(self, encoding_chars=None):
-        return datetime.strftime(self.value, self.format)
+        # strftime('%Y') does not zero-pad years below 1000 on every platform (e.g. glibc):
+        # the year is formatted explicitly with four digits
+        out_format = self.format.replace('%Y', '{0:04d}'.format(self.value.year))
+        return datetime.strftime(self.value, out_format)
 
 
 class WD(TextualDataType):
